@@ -22,6 +22,22 @@ use std::sync::Arc;
 
 type Node = Alpenglow<TrivialAll2All<UdpNetwork<ConsensusMessage, ConsensusMessage>>, TrivialDisseminator<UdpNetwork<Shred, Shred>>, UdpNetwork<Transaction, Transaction>>;
 
+/// read-only observation of the node's blockstore for one slot: which of the slices 0..3 have a cached commitment,
+/// and whether the disseminated block is complete (compared with the coarse blockstore model of the driver, which
+/// is fed through the abstraction `Seam.absShred`: the seam between the two shred models)
+fn node_obs(rt: &tokio::runtime::Runtime, bs: &alpenglow::consensus::SharedBlockstore, slot: u64) -> String {
+    rt.block_on(async {
+        let g = bs.read().await;
+        let mut c = String::new();
+        for i in 0..4u64 {
+            let idx: SliceIndex = wincode::deserialize(&i.to_le_bytes()).expect("slice index");
+            c.push(if g.cached_commitment(Slot::new(slot), idx).is_some() { '1' } else { '0' });
+        }
+        let blk = g.disseminated_block_hash(Slot::new(slot)).is_some();
+        format!("c={c} blk={}", blk as u8)
+    })
+}
+
 /// a real node (validator 0 of four; validator k holds signing key `sks[k]`), UDP sockets on localhost
 fn make_node(sks: &[SecretKey], rng: &mut Rng) -> (Node, EpochInfo) {
     let a2a: UdpNetwork<ConsensusMessage, ConsensusMessage> = UdpNetwork::new_with_any_port();
@@ -962,7 +978,7 @@ fn main() {
             cx.mk(leader, slot, 1, false, None, 301 + rng.below(50) as usize, rng.below(256), rng.below(256))
         };
         let foreign = cx.mk(other_key, slot, 1, false, None, 400 + rng.below(50) as usize, rng.below(256), rng.below(256));
-        cx.rec.step("node_new", "ok");
+        cx.rec.step(&format!("node_new {slot}"), "ok");
         let bs = node.verif_blockstore();
         let feed = |cx: &mut Ctx, set: usize, i: usize, muts: &[Mut], rng: &mut Rng| {
             let (w, _, _) = cx.mutate(set, i, muts, rng);
@@ -976,6 +992,9 @@ fn main() {
                 }
             };
             cx.rec.step(&op, out);
+            // the seam: the same observation on the coarse blockstore model driven through the abstraction
+            let obs = node_obs(&cx.rt, &bs, slot);
+            cx.rec.step("nobs", &obs);
         };
         let probe = |cx: &mut Ctx, set: usize, i: usize| -> String {
             let v = cx.sets[set].shreds[i].clone();
@@ -1042,7 +1061,7 @@ fn main() {
         } else {
             cx.mk(leader, slot, target, target + 1 == nslices, tparent, 8, 0, (target != 0) as u64)
         };
-        cx.rec.step("node_new", "ok");
+        cx.rec.step(&format!("node_new {slot}"), "ok");
         let bs = node.verif_blockstore();
         for j in 0..nslices {
             let mut idx: Vec<usize> = (0..64).collect();
@@ -1051,6 +1070,8 @@ fn main() {
                 let sh = cx.sets[j].shreds[i].as_shred().clone();
                 let r = catch(|| cx.rt.block_on(node.verif_handle_disseminator_shred(sh)));
                 cx.rec.step(&format!("node {j} {i} {leader}"), if matches!(r, Ok(Ok(()))) { "done" } else { "panic" });
+                let obs = node_obs(&cx.rt, &bs, slot);
+                cx.rec.step("nobs", &obs);
             }
         }
         let complete = cx.rt.block_on(async { bs.read().await.disseminated_block_hash(Slot::new(slot)).is_some() });
@@ -1059,6 +1080,8 @@ fn main() {
         let sh = cx.sets[conflict].wires[first_conflict_shred].decode().expect("decodable");
         let r = catch(|| cx.rt.block_on(node.verif_handle_disseminator_shred(sh)));
         cx.rec.step(&format!("node {conflict} {first_conflict_shred} {leader}"), if matches!(r, Ok(Ok(()))) { "done" } else { "panic" });
+        let obs = node_obs(&cx.rt, &bs, slot);
+        cx.rec.step("nobs", &obs);
         // flagged? a further genuine shred is then refused by the blockstore
         let v = cx.sets[0].shreds[63].clone();
         let r = cx.rt.block_on(async { bs.write().await.add_shred_from_dissemination(v).await });
